@@ -46,12 +46,12 @@ Theorem C16_commit_writes_staged_view : forall c s ws d,
   forall k, lookup (apply_writes s ws) k = view s c k.
 Proof. exact commit_writes_staged_view. Qed.
 
-(* ... and the tree receives one update per written key: hash of the value for a set key, the EMPTY value (leaf
-   removed, LIP-0039) for a deleted key, under the tree key prefix(6) ++ hash(rest) *)
-Theorem C16_tree_updates_delete_leaf : forall hash ws ups, tree_updates hash ws = Some ups ->
+(* ... and the tree receives one update per written key: hash of the value for a set key, a deletion (empty value,
+   leaf removed, LIP-0039) for a deleted key, under the tree key prefix(6) ++ hash(rest) *)
+Theorem C16_tree_updates_delete_leaf : forall hash (K : Type) (enc : bytes -> K) ws ups, tree_updates hash enc ws = Some ups ->
   Forall2 (fun w u => match w with
-                      | WSet k v => tree_key hash k = Some (fst u) /\ snd u = hash v
-                      | WDel k => tree_key hash k = Some (fst u) /\ snd u = []
+                      | WSet k v => exists tk, tree_key hash k = Some tk /\ fst u = enc tk /\ snd u = Some (hash v)
+                      | WDel k => exists tk, tree_key hash k = Some tk /\ fst u = enc tk /\ snd u = None
                       end) ws ups.
 Proof. exact tree_updates_spec. Qed.
 
